@@ -45,6 +45,7 @@ import types
 from ..translate.util import TieBroken, find_def, fingerprint, parse
 
 PROPERTY = "C15"
+CASE_TIMEOUT = 300  # s of wall clock per case in pool workers (runner watchdog): a case that spins forever is a verdict, not exit 2
 THEOREM_MODULE = "NemoVerif.Theorems.C15"
 RULE = ("keypair: a random history and an adversarial variant (adjacent messages merged with ':', a content split at ':', "
         "roles swapped, a message of a non-keyed role inserted) or an independent one; events: random history + cache holding "
